@@ -1,4 +1,4 @@
-import FrappyProofs.Lemmas.KlassProps
+import FrappyProofs.Lemmas.KlassViews
 /-
 C09 — property theorems (nothing but property theorems and their non-vacuity examples).
 -/
@@ -211,15 +211,13 @@ def order_independent_statement : Prop :=
     ∀ n, (run T {} ops1).findClass n ≠ none → (run T {} ops2).findClass n ≠ none →
       describeH (run T {} ops1) (.cls n) = describeH (run T {} ops2) (.cls n)
 
-/-- proved part of `order_independent_statement`, at value level, for whole programs: what
-`__init_subclass__` computed for a class (all accessibles with merged properties, datatypes, export names, order, and
-`propertyDict` — every module property with its value, default, external name, export flag and the class whose
-`__dict__` holds the Property object:
-`ClassRec.pure`, the value the heap layout is made from) is `pureOf env` — a function of the class bodies along
-its MRO only — whatever else was defined or instantiated or mutated, in whatever order consistent with
-inheritance.  Hence any two such programs agree on it.
-Missing for the full statement: that `describeH` shows exactly the views of `pure` (faithfulness of `layout`
-for inherited shared accessibles and declared command arguments); covered by the correspondence run only. -/
+/-- the value-level half of order independence, for whole programs: what `__init_subclass__` computed for a class (all
+accessibles with merged properties, datatypes, export names, order, and `propertyDict` — every module property with its
+value, default, external name, export flag and the class whose `__dict__` holds the Property object: `ClassRec.pure`, the
+value the heap layout is made from) is `pureOf env` — a function of the class bodies along its MRO only — whatever else
+was defined or instantiated or mutated, in whatever order consistent with inheritance.  Hence any two such programs
+agree on it.  (The name is historical: the full statement is `order_independent` below, which needs in addition that
+the heap layout shows a function of this value and of what the classes along the MRO show: `vInv_run`.) -/
 theorem order_independent_partial (T : Tables) (env : Name → Option ClassDecl) (ops1 ops2 : List Op)
     (ha1 : AdmissibleRun T {} ops1) (hc1 : ConsistentRun T env {} ops1)
     (ha2 : AdmissibleRun T {} ops2) (hc2 : ConsistentRun T env {} ops2)
@@ -233,6 +231,44 @@ theorem order_independent_partial (T : Tables) (env : Name → Option ClassDecl)
   have e2 := hf2 (max f1 f2) (Nat.le_max_right _ _)
   rw [e1] at e2
   exact ⟨Option.some.inj e2, _, e1⟩
+
+/-- every class of an admissible, inheritance-consistent program shows in the heap what `viewsOf env` says -/
+theorem vInv_run (T : Tables) (env : Name → Option ClassDecl) (ops : List Op) (w : World) (hb : Bounded w)
+    (hs : Separated w) (hadm : AdmissibleRun T w ops) (hcons : ConsistentRun T env w ops) (hp : PureInv T env w)
+    (hv : VInv T env w) : VInv T env (run T w ops) := by
+  induction ops generalizing w with
+  | nil => exact hv
+  | cons op ops ih =>
+    have hsp := separated_preserved T w op hadm.1 hb hs
+    simp only [run, List.foldl_cons]
+    exact ih (step T w op) hsp.1 hsp.2 hadm.2 hcons.2 (pureInv_step T env w op hadm.1 hcons.1 hp)
+      (vInv_step T env w op hadm.1 hcons.1 hb hs hp hv)
+
+/-- **order independence (full)** — "a module's description is a function of its own class chain … only, independent
+of which other classes were defined or modules created before or after it": in any two programs that define their
+classes with the same bodies (`env`), each in an order consistent with inheritance, whatever else they define,
+instantiate, configure or mutate in between, a class defined by both has the same description in the heap — namely
+`(viewsOf T env f n).accessibles`, a function of the class bodies along its MRO. -/
+theorem order_independent : order_independent_statement := by
+  intro T env ops1 ops2 ha1 hc1 ha2 hc2 n h1 h2
+  have hpe : PureInv T env {} := fun m cr h => by simp [World.findClass] at h
+  have hve : VInv T env {} := fun m cr h => by simp [World.findClass] at h
+  have hv1 := vInv_run T env ops1 {} empty_world_ok.1 empty_world_ok.2 ha1 hc1 hpe hve
+  have hv2 := vInv_run T env ops2 {} empty_world_ok.1 empty_world_ok.2 ha2 hc2 hpe hve
+  cases hf1 : (run T {} ops1).findClass n with
+  | none => exact absurd hf1 h1
+  | some cr1 =>
+    cases hf2 : (run T {} ops2).findClass n with
+    | none => exact absurd hf2 h2
+    | some cr2 =>
+      obtain ⟨V1, hs1, F1, hF1⟩ := hv1 n cr1 hf1
+      obtain ⟨V2, hs2, F2, hF2⟩ := hv2 n cr2 hf2
+      have e1 := hF1 (max F1 F2) (Nat.le_max_left _ _)
+      have e2 := hF2 (max F1 F2) (Nat.le_max_right _ _)
+      rw [e1] at e2
+      cases e2
+      simp only [describeH, World.accessiblesOf, hf1, hf2]
+      rw [hs1.accessibles, hs2.accessibles]
 
 /-- the heap shows of the module properties of every class exactly what was computed at value level, after every
 admissible program whose class bodies are Python dicts -/
